@@ -33,6 +33,8 @@ Definition torch_frames (c : cfg) (x : list A) : list (list A) :=
   else
     let pl := pad_left c in
     let nf := Z.max 0 ((N + S c / 2) / S c) in
+    if nf =? 0 then []   (* torch.py: the frame count rounded to zero (only when frame_shift > frame_length) *)
+    else
     let total := (nf - 1) * S c - pl + L c in
     let pr := Z.max 0 (total - N) in
     let sig := if negb ((pl =? 0) && (pr =? 0)) then torch_pad x pl pr else x in
@@ -83,6 +85,26 @@ Proof.
   pose proof (T_bounds c HS HL) as HT. pose proof (pl_le_FL0 c HS HL) as HplF.
   assert (pad_left c <= len x) as Hple.
   { unfold pad_left. destruct (centered c), (kaldi c); lia. }
+  destruct (Z.max 0 ((len x + S c / 2) / S c) =? 0) eqn:E0.
+  { apply Z.eqb_eq in E0. rewrite E0. reflexivity. }
+  set (pr := Z.max 0 _).
+  destruct ((pad_left c =? 0) && (pr =? 0)) eqn:E2; cbn [negb]; [reflexivity|].
+  rewrite torch_pad_eq_sympad by (unfold pr; lia). reflexivity.
+Qed.
+
+(* the same for ANY positive shift (also frame_shift > frame_length, where compute_full still
+   works), as long as the left pad is not negative (it is negative only for kaldi_shift with
+   frame_shift > frame_length + 1, which np.pad rejects) *)
+Theorem torch_frames_eq_full_any_shift_l (c : cfg) x :
+  0 < S c -> 0 < L c -> 0 <= pad_left c -> torch_frames c x = full_frames c x.
+Proof.
+  intros HS HL Hpl. unfold torch_frames, full_frames. cbv zeta.
+  destruct (len x <? L c / 2 + 1) eqn:E; [reflexivity|].
+  apply Z.ltb_ge in E.
+  assert (pad_left c <= len x) as Hple.
+  { revert Hpl. unfold pad_left. destruct (centered c), (kaldi c); lia. }
+  destruct (Z.max 0 ((len x + S c / 2) / S c) =? 0) eqn:E0.
+  { apply Z.eqb_eq in E0. rewrite E0. reflexivity. }
   set (pr := Z.max 0 _).
   destruct ((pad_left c =? 0) && (pr =? 0)) eqn:E2; cbn [negb]; [reflexivity|].
   rewrite torch_pad_eq_sympad by (unfold pr; lia). reflexivity.
